@@ -333,3 +333,203 @@ def jobs(tier="quick", seed=0):
                 yield Job("K/join_blocks/T/%s/align=%s/%s" % (kind, align, "perblock" if perblock else "noperblock"),
                           tables_harness(kind, align, perblock, False, None), setup=setup, kind="D", func="gtirb_rewriting._modify.join:join_blocks",
                           expect_cover=("joined",), timeout_ms=30000)
+
+
+# ====================================================================================================================
+# E family: labels / edges / functions -- semantic contract on enumerated shapes (concrete representative sizes 0 / 2)
+# ====================================================================================================================
+ET = gtirb.EdgeType
+B1_OUT = {True: ["ft", "jmp", "jcc", "call", "ret"], False: ["none", "ft"]}          # keyed by "block is non-empty"
+B2_OUT = {True: ["ft", "jmp", "jcc", "call", "ret"], False: ["none", "ft"]}
+
+
+def build_e(s1, s2, o1, o2, extra_in, labels, funcs):
+    ir, m = create_test_module(gtirb.Module.FileFormat.ELF, gtirb.Module.ISA.X64)
+    _, bi = add_text_section(m, address=0x1000)
+    prev = add_code_block(bi, b"\x90")
+    # created with two bytes each so that the cache's initial ordering is prev, block1, block2, nxt; shrunk by shrink() afterwards
+    b1 = add_code_block(bi, b"\x90\x90")
+    b2 = add_code_block(bi, b"\x90\x90")
+    nxt = add_code_block(bi, b"\x90\xc3")
+    tgt = add_code_block(bi, b"\xeb\x00")
+    callee = add_code_block(bi, b"\xc3")
+    cfg = ir.cfg
+    add_edge(cfg, prev, b1, ET.Fallthrough)
+    add_edge(cfg, nxt, add_proxy_block(m), ET.Return)
+    ret_sites = []
+
+    def out(b, kind, ft_target):
+        if kind == "ft":
+            add_edge(cfg, b, ft_target, ET.Fallthrough)
+        elif kind == "jmp":
+            add_edge(cfg, b, tgt, ET.Branch)
+        elif kind == "jcc":
+            add_edge(cfg, b, tgt, ET.Branch, conditional=True)
+            add_edge(cfg, b, ft_target, ET.Fallthrough)
+        elif kind == "call":
+            add_edge(cfg, b, callee, ET.Call)
+            add_edge(cfg, b, ft_target, ET.Fallthrough)
+            ret_sites.append(ft_target)
+        elif kind == "ret":
+            add_edge(cfg, b, add_proxy_block(m), ET.Return)
+    out(b1, o1, b2)
+    out(b2, o2, nxt)
+    if ret_sites:
+        for s in ret_sites:
+            add_edge(cfg, callee, s, ET.Return)
+    else:
+        add_edge(cfg, callee, add_proxy_block(m), ET.Return)
+    if extra_in:
+        add_edge(cfg, tgt, b2, ET.Branch)
+    else:
+        add_edge(cfg, tgt, nxt, ET.Branch)
+    syms = {"S1": add_symbol(m, "S1", b1)}
+    if "b2start" in labels:
+        syms["S2"] = add_symbol(m, "S2", b2)
+    if "b2end" in labels:
+        syms["E2"] = add_symbol(m, "E2", b2)
+        syms["E2"].at_end = True
+    if "b1end" in labels:
+        syms["E1"] = add_symbol(m, "E1", b1)
+        syms["E1"].at_end = True
+    fl = []
+    if funcs != "none":
+        if funcs == "same":
+            add_function(m, add_symbol(m, "f", prev), prev, {b1, b2, nxt})
+        elif funcs == "different":
+            add_function(m, add_symbol(m, "f", prev), prev, {b1})
+            add_function(m, add_symbol(m, "h", nxt), nxt, {b2})          # block2 belongs to another function without being its entry
+        elif funcs == "b2-entry":
+            u = add_function(m, add_symbol(m, "f", prev), prev, {b1, b2, nxt})
+            _auxdata.function_entries.get(m)[u].add(b2)
+        add_function(m, add_symbol(m, "g", callee), callee)
+        add_function(m, add_symbol(m, "t", tgt), tgt)
+        fl = gtirb_functions.Function.build_functions(m)
+    return dict(ir=ir, m=m, bi=bi, prev=prev, b1=b1, b2=b2, nxt=nxt, tgt=tgt, callee=callee, syms=syms, fl=fl)
+
+
+def shrink(H, s1, s2):
+    """give block1 / block2 their sizes (0 or 2) once the cache exists (gtirb keeps offset and size in plain fields)"""
+    H["b1"]._size = s1
+    H["b2"]._offset, H["b2"]._size = 1 + s1, s2
+    H["nxt"]._offset = 1 + s1 + s2
+
+
+def flow_view(H, cache, b2_alive):
+    """position-level control flow seen from real (non-empty) code; empty blocks are pass-through: an edge into an empty block
+    continues along that block's own out-edges, or -- if it has none -- with the code that physically follows it"""
+    ir = H["ir"]
+    order = [b for b in (H["prev"], H["b1"], H["b2"], H["nxt"]) if (b is not H["b2"] or b2_alive)]
+    proxies = {}
+
+    def pos(b):
+        return ("pos", b.offset)
+
+    def resolve(t, depth=0):
+        if isinstance(t, gtirb.ProxyBlock):
+            return {("proxy",)}
+        if t.size:
+            return {pos(t)}
+        if depth > 6:
+            return {("cycle",)}
+        outs = list(t.outgoing_edges)
+        if outs:
+            r = set()
+            for e in outs:
+                r |= resolve(e.target, depth + 1)
+            return r
+        if t in order:
+            i = order.index(t)
+            return resolve(order[i + 1], depth + 1) if i + 1 < len(order) else {("end",)}
+        return {("end",)}
+    view = {}
+    for b in [H["prev"], H["b1"], H["nxt"], H["tgt"], H["callee"]] + ([H["b2"]] if b2_alive else []):
+        if not b.size:
+            continue
+        s = set()
+        for e in b.outgoing_edges:
+            for x in resolve(e.target):
+                s.add((e.label.type.name, bool(e.label.conditional), x))
+        view[("end-at", b.offset + b.size)] = s
+    return view
+
+
+def make_e_harness(s1, s2):
+    def harness(ctx):
+        o1 = B1_OUT[s1 > 0][ctx.choose(len(B1_OUT[s1 > 0]), "block1-out-edges")]
+        o2 = B2_OUT[s2 > 0][ctx.choose(len(B2_OUT[s2 > 0]), "block2-out-edges")]
+        extra_in = bool(ctx.choose(2, "block2-has-a-branch-coming-in"))
+        lab_opts = [(), ("b2start",), ("b2end",), ("b2start", "b2end")] + ([("b1end",), ("b1end", "b2start")] if s2 == 0 else [])
+        labels = lab_opts[ctx.choose(len(lab_opts), "labels")]
+        fopts = ["none", "same", "b2-entry"] + (["different"] if s1 > 0 else [])
+        if s1 == 0:
+            fopts = ["none", "same"]          # precondition: an empty block1 is in the function of block2, which is not an entry
+        funcs = fopts[ctx.choose(len(fopts), "functions")]
+        H = build_e(s1, s2, o1, o2, extra_in, labels, funcs)
+        m, b1, b2 = H["m"], H["b1"], H["b2"]
+        with make_modify_cache(m, H["fl"]) as cache:
+            shrink(H, s1, s2)
+            lab0 = {n: (cache.reference_cache.get_referent(s).offset + (cache.reference_cache.get_referent(s).size if s.at_end else 0)) for n, s in H["syms"].items()}
+            flow0 = flow_view(H, cache, True)
+            edges0 = sorted((id(e.source), id(e.target), e.label.type.name) for e in H["ir"].cfg)
+            fb = _auxdata.function_blocks.get(m)
+            fe = _auxdata.function_entries.get(m)
+            func_at0 = {b.offset: u for u, bs in (fb or {}).items() for b in bs if b.size} if fb else {}
+            entries0 = {u: sorted(b.offset for b in bs) for u, bs in (fe or {}).items()} if fe else {}
+            try:
+                JN.join_blocks(cache, b1, b2)
+                joined = True
+            except JN.UnjoinableBlocksError:
+                joined = False
+            ctx.cover("joined" if joined else "refused")
+            P = ctx.prove
+            if not joined:
+                edges1 = sorted((id(e.source), id(e.target), e.label.type.name) for e in H["ir"].cfg)
+                ok = edges1 == edges0 and b2.byte_interval is H["bi"] and all(cache.reference_cache.get_referent(s) is (b1 if n in ("S1", "E1") else b2) for n, s in H["syms"].items())
+                P("join_blocks/R/a-refusal-leaves-edges-labels-and-blocks-untouched", z3.BoolVal(bool(ok)))
+                return
+            # L: every label keeps its absolute position and refers to a live block
+            lab1, dangling = {}, []
+            for n, s in H["syms"].items():
+                r = cache.reference_cache.get_referent(s)
+                if r is not b1:
+                    dangling.append(n)
+                    continue
+                lab1[n] = r.offset + (r.size if s.at_end else 0)
+            P("join_blocks/L/no-label-left-on-the-removed-block", z3.BoolVal(not dangling), note=str(dangling))
+            P("join_blocks/L/every-label-keeps-its-absolute-position", z3.BoolVal(lab1 == {k: v for k, v in lab0.items() if k in lab1}),
+              note="before %s after %s" % (lab0, lab1))
+            # E: control flow seen from real code is unchanged
+            flow1 = flow_view(H, cache, False)
+            bury = s1 > 0 and s2 > 0 and flow0.get(("end-at", b1.offset + s1)) != {("Fallthrough", False, ("pos", b1.offset + s1))}
+            P("join_blocks/E/no-control-transfer-is-buried-in-the-middle-of-the-joined-block", z3.BoolVal(not bury),
+              note="flow out of block1 before: %s" % sorted(flow0.get(("end-at", b1.offset + s1), ())))
+            want = {k: v for k, v in flow0.items() if not (s1 > 0 and s2 > 0 and k == ("end-at", b1.offset + s1))}
+            P("join_blocks/E/control-flow-seen-from-real-code-is-unchanged", z3.BoolVal(flow1 == want),
+              note="changed: %s" % [(k, sorted(want.get(k, ())), sorted(flow1.get(k, ()))) for k in sorted(set(want) | set(flow1)) if want.get(k) != flow1.get(k)][:3])
+            live = set(m.byte_blocks) | set(m.proxies)
+            P("join_blocks/E/no-edge-starts-or-ends-at-the-removed-block", z3.BoolVal(all(e.source in live and e.target in live for e in H["ir"].cfg)))
+            # F: function tables keep describing the same code
+            fb, fe = _auxdata.function_blocks.get(m), _auxdata.function_entries.get(m)
+            if fb:
+                func_at1 = {b.offset: u for u, bs in fb.items() for b in bs if b.size}
+                want_f = dict(func_at0)
+                if s1 > 0 and s2 > 0:
+                    want_f.pop(b1.offset + s1, None)      # block2's bytes are now inside the joined block, which starts at block1's offset
+                P("join_blocks/F/every-byte-range-keeps-its-function", z3.BoolVal(func_at1 == want_f and all(b2 not in bs for bs in fb.values()) and b2 not in cache.functions_by_block
+                                                                                 and (s1 == 0 or s2 == 0 or func_at0.get(b1.offset) == func_at0.get(b1.offset + s1))),
+                  note="before %s after %s" % (sorted(func_at0), sorted(func_at1)))
+                entries1 = {u: sorted(b.offset for b in bs) for u, bs in fe.items()}
+                P("join_blocks/F/function-entries-stay-at-their-positions", z3.BoolVal(entries1 == entries0 and all(b2 not in bs for bs in fe.values())),
+                  note="before %s after %s" % (sorted(entries0.values()), sorted(entries1.values())))
+    return harness
+
+
+_jobs_t = jobs
+
+
+def jobs(tier="quick", seed=0):
+    yield from _jobs_t(tier, seed)
+    for s1, s2 in ((2, 2), (2, 0), (0, 2), (0, 0)):
+        yield Job("K/join_blocks/E/block1-%s/block2-%s" % ("nonempty" if s1 else "empty", "nonempty" if s2 else "empty"), make_e_harness(s1, s2), kind="E",
+                  func="gtirb_rewriting._modify.join:are_joinable/join_blocks", expect_cover=("joined", "refused") if s1 else ("joined",))
